@@ -6,6 +6,7 @@ package hclwrite
 import (
 	"strings"
 
+	"github.com/hashicorp/hcl/v2"
 	"github.com/hashicorp/hcl/v2/hclsyntax"
 	"github.com/zclconf/go-cty/cty"
 )
@@ -160,14 +161,29 @@ func (bl *blockLabels) Current() []string {
 				// example), each of which may contain escape sequences. An
 				// open quote followed immediately by a closing quote is a
 				// valid but unusual blank string label.
+				// A label that was set through this API is a single literal
+				// token, which is not how the scanner would divide it, and
+				// escape sequences are only decoded correctly from the
+				// scanner's own tokens (consider "$$${"), so we scan again.
+				var raw []byte
+				for _, tok := range tokens {
+					raw = append(raw, tok.Bytes...)
+				}
+				scanned, scanDiags := hclsyntax.LexExpression(raw, "", hcl.InitialPos)
+				if scanDiags.HasErrors() || len(scanned) < 3 ||
+					scanned[0].Type != hclsyntax.TokenOQuote ||
+					scanned[len(scanned)-2].Type != hclsyntax.TokenCQuote ||
+					scanned[len(scanned)-1].Type != hclsyntax.TokenEOF {
+					continue
+				}
 				var labelString strings.Builder
 				valid := true
-				for _, tok := range tokens[1 : len(tokens)-1] {
+				for _, tok := range scanned[1 : len(scanned)-2] {
 					if tok.Type != hclsyntax.TokenQuotedLit {
 						valid = false
 						break
 					}
-					part, diags := hclsyntax.ParseStringLiteralToken(tok.asHCLSyntax())
+					part, diags := hclsyntax.ParseStringLiteralToken(tok)
 					// If parsing the string literal returns error diagnostics
 					// then we can just assume the label doesn't match, because it's invalid in some way.
 					if diags.HasErrors() {
